@@ -5652,6 +5652,9 @@ def _leaf_asts_default(pat: _Pattern) -> tp_Set[type[AST]] | None:
         return AST2ASTSLEAF[pat._types]  # will be a single type here
 
     if isinstance(pat, AST):
+        if isinstance(pat, expr_context):  # a Load, Store or Del instance matches any expr_context unless match option ctx=True, see _match_node_expr_context()
+            return AST2ASTSLEAF[expr_context]
+
         return AST2ASTSLEAF[pat.__class__]
 
     if isinstance(pat, str):  # gets here from a subclassed str
